@@ -80,14 +80,17 @@ def streams(tier, rng):
         Stream("alloc-scripted", "alloc", scripted, nontrivial=has_figures, hist=script_hist(scripted)),
         Stream("alloc-no-user-allocation", "alloc", zero, nontrivial=has_call, hist=script_hist(zero)),
         Stream("alloc-only-outside-the-calls", "alloc", outside, nontrivial=has_call, hist=script_hist(outside)),
+        # optimised build (allocation elision, reordering around the timestamps would show here)
+        Stream("alloc-scripted-release", "alloc", scripted if tier != "quick" else scripted[::2], nontrivial=has_figures, release=True),
+        Stream("alloc-no-user-allocation-release", "alloc", zero if tier != "quick" else zero[::2], nontrivial=has_call, release=True),
     ]
 
 
 def shrink(item, rerun):
-    case, mode = item["case"], item["mode"]
+    case, mode, rel = item["case"], item["mode"], item.get("release", False)
 
     def fails(c):
-        impl, model, sb = rerun(mode, c, crate=CRATE, drv=DRV)
+        impl, model, sb = rerun(mode, c, crate=CRATE, release=rel, drv=DRV)
         return (not sb.startswith("true")), impl, model, sb
 
     def setf(c, k, v):
